@@ -1,6 +1,7 @@
 package main
 
 import (
+	"encoding/json"
 	"fmt"
 	"os"
 	"strconv"
@@ -136,3 +137,41 @@ func devSem(pool *sup.Pool, args []string) int {
 }
 
 func init() { devCmds["sem"] = devSem }
+
+// devMS: print the admitted multisets of the program in a witness file (re-generated from its id).
+func devMS(pool *sup.Pool, args []string) int {
+	raw, _ := os.ReadFile(args[0])
+	var w struct {
+		Program string `json:"program"`
+		ID      string `json:"program_id"`
+	}
+	json.Unmarshal(raw, &w)
+	var s int64
+	fmt.Sscanf(w.ID, "g%d", &s)
+	var p *ast.Program
+	for i := -1; i < 12 && p == nil; i++ {
+		var o *gen.Opt
+		if i >= 0 {
+			oo := gen.Opt{MaxSplit: 2, Pol: 2, Alias: 30, ExplicitSelf: 10, ExplicitProv: 10, Exec: 10, Print: 35, TopMax: 2, Fuel: 2, MultiProv: 20, Drop: 10, Split: 12, Mixed: i%2 == 0, MainMode: []ast.Mode{ast.Lin, ast.Rep, ast.Mul, ast.Aff}[i%4]}
+			o = &oo
+		}
+		q, _, _ := gen.Generate(s, o)
+		if q.Text() == w.Program {
+			p = q
+		}
+	}
+	if p == nil {
+		fmt.Println("cannot regenerate")
+		return 1
+	}
+	m := sem.New(p)
+	sr := &sem.Search{MaxState: 50000, MaxSteps: 400000}
+	set := m.Multisets(sr)
+	fmt.Println("states", sr.States, "bounded", sr.Bounded)
+	for k := range set {
+		fmt.Println("  ", k)
+	}
+	return 0
+}
+
+func init() { devCmds["ms"] = devMS }
